@@ -16,27 +16,57 @@ def name (kind : Nat) : String :=
   | 0 => "submit operation" | 1 => "submit barrier" | 2 => "operation enters the barrier group" | 3 => "operation leaves the barrier group"
   | 4 => "barrier queue suspended" | 5 => "barrier block runs" | 6 => "barrier queue resumed" | _ => "?"
 
+/-- The harness numbers a record after the operation it describes, so a record can be logged later than its operation took effect
+    (never earlier). A record the replay refuses is retried after the next record of another thread, if that one is among the
+    following few and nothing of its own thread lies between: a history is refused only if no such reordering is accepted either. -/
+partial def replay (st : St) (evs : Array (Nat × Nat × Nat)) (i : Nat) (late fires : Nat) : Except (Nat × St) (Nat × Nat) :=
+  if h : i < evs.size then
+    let (k, id, tid) := evs[i]
+    match evOf k id with
+    | none => replay st evs (i + 1) late fires
+    | some e =>
+      match exec st e with
+      | some st' => replay st' evs (i + 1) late (if k == 5 then fires + 1 else fires)
+      | none =>
+        let cand := (List.range 8).findSome? fun d =>
+          let j := i + 1 + d
+          if hj : j < evs.size then
+            let (kj, idj, tj) := evs[j]
+            if tj == tid then none
+            else if ((List.range d).any fun d' => (evs[i + 1 + d']!).2.2 == tj) then none
+            else match evOf kj idj with
+              | none => none
+              | some ej => match exec st ej with
+                | none => none
+                | some s1 => match exec s1 e with
+                  | none => none
+                  | some s2 => some (j, s2, (if kj == 5 then 1 else 0) + (if k == 5 then 1 else 0))
+          else none
+        match cand with
+        | some (j, s2, f) => replay s2 (evs.eraseIdx! j) (i + 1) (late + 1) (fires + f)
+        | none => .error (i, st)
+  else .ok (late, fires)
+
 def main (paths : List String) : IO UInt32 := do
-  let mut total := 0; let mut bad : List String := []; let mut fires := 0
+  let mut total := 0; let mut bad : List String := []; let mut fires := 0; let mut lates := 0
   for path in paths do
-    let mut st : St := {}
-    let mut dead := false
+    let mut secs : List (Array (Nat × Nat × Nat)) := []
+    let mut buf : Array (Nat × Nat × Nat) := #[]
     for line in (← IO.FS.readFile path).splitOn "\n" do
       match line.splitOn " " with
-      | ["S", _] => st := {}; dead := false
-      | ["E", kind, id] =>
-        if dead then continue
-        total := total + 1
-        match evOf kind.toNat! id.toNat! with
-        | some e =>
-          match exec st e with
-          | some st' => st := st'; if kind == "5" then fires := fires + 1
-          | none =>
-            dead := true
-            bad := s!"{path}: event {total} ({name kind.toNat!} {id}) is not a move of IoCh in this state: queue head {repr (st.bq.head?.map fun a => match a with | .op i => s!"op {i}" | .bar j => s!"barrier {j}")}, suspended {st.susp}, operations in the group {st.inflight.length}, barrier waiting {st.notif}" :: bad
-        | none => pure ()
+      | ["S", _] => if buf.size > 0 then secs := buf :: secs; buf := #[]
+      | ["E", kind, id] => buf := buf.push (kind.toNat!, id.toNat!, 0)
+      | ["E", kind, id, tid] => buf := buf.push (kind.toNat!, id.toNat!, tid.toNat!)
       | _ => pure ()
-  IO.println s!"channel events {total}  explained-by-IoCh.exec {total - bad.length}  barrier blocks run in a state meeting barrier_between {fires}  UNEXPLAINED {bad.length}"
+    if buf.size > 0 then secs := buf :: secs
+    for evs in secs.reverse do
+      total := total + evs.size
+      match replay {} evs 0 0 0 with
+      | .ok (l, f) => lates := lates + l; fires := fires + f
+      | .error (i, st) =>
+        let (k, id, _) := evs[i]!
+        bad := s!"{path}: event {i} ({name k} {id}) is not a move of IoCh in this state: queue head {repr (st.bq.head?.map fun a => match a with | .op i => s!"op {i}" | .bar j => s!"barrier {j}")}, suspended {st.susp}, operations in the group {st.inflight.length}, barrier waiting {st.notif}" :: bad
+  IO.println s!"channel events {total}  explained-by-IoCh.exec {total - bad.length}  barrier blocks run in a state meeting barrier_between {fires}  late records {lates}  UNEXPLAINED {bad.length}"
   for b in bad.reverse.take 6 do IO.println s!"{b.take 400}"
   return if bad.isEmpty then 0 else 1
 
